@@ -109,6 +109,24 @@ Fixpoint b64_groups (vs : list N) : option bytes :=
 Definition b64url_decode (s : bytes) : option bytes :=
   match b64_vals s with Some vs => b64_groups vs | None => None end.
 
+(* base64.RawURLEncoding.EncodeToString (used by GenerateJWT; here for examples) *)
+Definition b64chr (n : N) : byte :=
+  (if n <? 26 then n2b (n + 65)
+   else if n <? 52 then n2b (n + 71)
+   else if n <? 62 then n2b (n - 4)
+   else if n =? 62 then x2d else x5f)%N.
+Fixpoint b64url_encode (bs : bytes) : bytes :=
+  (match bs with
+   | [] => []
+   | [a] => let x := b2n a in [b64chr (x / 4); b64chr ((x mod 4) * 16)]
+   | [a; b] => let x := b2n a in let y := b2n b in
+               [b64chr (x / 4); b64chr ((x mod 4) * 16 + y / 16); b64chr ((y mod 16) * 4)]
+   | a :: b :: c :: r =>
+       let x := b2n a in let y := b2n b in let z := b2n c in
+       b64chr (x / 4) :: b64chr ((x mod 4) * 16 + y / 16) :: b64chr ((y mod 16) * 4 + z / 64)
+       :: b64chr (z mod 64) :: b64url_encode r
+   end)%N.
+
 (* ---------- JSON view (encoding/json is a parameter) -------------------- *)
 Inductive jv :=
 | JAbsent                 (* key not in the object (also: top-level null) *)
